@@ -320,6 +320,13 @@ def defineX (S : List Nat) (exps : List (List Nat)) (name : List Nat) : Res :=
   | some i => if S.getD i 0 = 120 then .str [120] else .throwType
   | none => if name = sLength then .throwType else let _ := exps; .str [120]
 
+/-- the receiver as ES5 sees it when String.prototype.toString has been replaced by a function returning `t`:
+    §11.2.3 step 6 passes GetBase(ref) as this – a primitive string stays the primitive and §9.8 ToString of a
+    String value calls nothing; a String OBJECT is converted by §9.1 ToPrimitive(hint String) → the replaced toString -/
+def thisOverridden (t : List Nat) : Recv → Recv
+  | .strObj _ => .obj t
+  | r => r
+
 /-! ## Order of the abstract operations (the step order of each algorithm in §15.5.4): CheckObjectCoercible(this)
      and ToString(this) first, then the arguments from left to right, each converted exactly once, whether
      or not the result will need it.  An undefined argument is "converted" without observable effect. -/
